@@ -1119,10 +1119,14 @@ pub fn parse_link(ctx: &mut Ctx, node: &Node, via: Option<&Action>) {
 
 /// Seen-key of a node within one root (E1).  For multi-turn runs the turn index, side and turn-start board are part
 /// of the key (within a bound of two turns the history of a state is exactly {root, its turn-start board}).
-pub type TurnKey = (Raw, u8, u32, bool, u64, bool, u8, Raw);
+pub type TurnKey = (Raw, u8, u32, bool, u64, bool, u8, Raw, u64);
 
-pub fn turn_key(n: &Node, multi_turn: bool) -> TurnKey {
+/// `path_sensitive` (C14): the boards passed through earlier in the turn are part of the key, so two different step
+/// orders leading to the same position are both expanded (what a state reports about the earlier boards of its turn -
+/// and what its successors inherit - depends on the path, not on the position).
+pub fn turn_key(n: &Node, multi_turn: bool, path_sensitive: bool) -> TurnKey {
     let pp = n.gs.as_play_phase();
+    let path = if path_sensitive { sip(&n.snaps) } else { 0 };
     (
         raw(n.gs.piece_board()),
         n.steps as u8,
@@ -1132,5 +1136,6 @@ pub fn turn_key(n: &Node, multi_turn: bool) -> TurnKey {
         n.gold,
         if multi_turn { n.hist.len() as u8 } else { 0 },
         if multi_turn { n.snaps[0] } else { [0; 8] },
+        path,
     )
 }
